@@ -1,3 +1,3 @@
 import AutomataVerif.Driver.Misc
 def main : IO Unit := do
-  AV.Proto.loop (← IO.getStdin) (← IO.getStdout) AV.Driver.Misc.handle
+  AV.Proto.loop (← IO.getStdin) (← IO.getStdout) AV.VA.Driver.handle
